@@ -151,3 +151,5 @@ def run(res, facts, tier):
         else:
             r2.ok(site)
     res.assume('C01: what each instruction does, alone or combined, is behavioural and not decided')
+    from . import c01_ns
+    c01_ns.run(res, facts)
